@@ -26,6 +26,10 @@ ASSUMPTIONS = [
     "sections longer than the stated K and gaps outside the stated set are not explored (small-scope hypothesis)",
 ]
 
+HEADER_PROBE = '''
+def probe(c):
+    return [[i.name, d.name, [[e.tick, list(e.note.value)] for e in t.note_events]] for i, dd in c.instrument_tracks.items() for d, t in dd.items()]
+'''
 PROBE_SRC = '''
 def probe(c):
     from chartparse.instrument import Instrument, Difficulty
@@ -98,6 +102,8 @@ def plan(tier, seed):
         )
     shards += [("long", g, inter) for g in (1, 2, 100) for inter in ("none", "between", "inside")]
     shards += [("big", lo) for lo in range(0, 28, 2)]
+    shards += [("headers", k) for k in range(4)]
+    bounds["headers"] = "all 40 section headers (instrument x difficulty): 32 combinations x 4 flag sets x 3 line orders x 3 interleavings each"
     bounds["big"] = "one section of 30 000 ticks in a chart of 1.2*10^6 characters, padding sweep 0..27"
     bounds["long"] = "sections of 128, 256, 640 (and once 5120) ticks walking through all 32 combinations x 4 flag sets, under 4 tempo / resolution environments and tick offsets up to 2^63"
     return dict(shards=shards, bounds=bounds, budget_s=900 if tier == "thorough" else 240)
@@ -152,6 +158,33 @@ def run_shard(shard, ctx):
             if got != expected:
                 k = next((i for i in range(min(len(got), len(expected))) if got[i] != expected[i]), None) if isinstance(got, list) and got[:1] != ["raises"] else None
                 e1.report(ctx, "note-events-big", text, PROBE_SRC, [["<30000 events as written>"]], got if not isinstance(got, list) or len(got) < 5 else ["...", got[max(0, (k or 0) - 1) : (k or 0) + 2]], "chart of %d characters (padding %d): note events differ from the lines written (first difference at event %r, %d events instead of 30000)" % (len(text), pad, k, len(got) if isinstance(got, list) else -1))
+        return
+    if kind == "headers":
+        # the statement is about "an instrument section": every one of the 40 headers, not only [ExpertSingle]
+        from ..refmodel import TRACK_HEADERS
+
+        hp = e1.compile_probe(HEADER_PROBE)
+        for header in list(TRACK_HEADERS)[shard[1] :: 4]:
+            ins, dif = TRACK_HEADERS[header]
+            for order in ORDERS:
+                for inter in ("none", "between", "inside"):
+                    ctx.node()
+                    combos, flags = [], []
+                    for f in FLAGS:
+                        for m in range(32):
+                            combos.append(COMBOS[m])
+                            flags.append(f if combos[1:] else ())
+                    ticks = [3 * i for i in range(len(combos))]
+                    groups = [note_lines(t, c, f, 0, order) for t, c, f in zip(ticks, combos, flags)]
+                    body = render(ticks, groups, inter)
+                    text = mk(tracks={header: body})
+                    expected = [[ins, dif, [[t, lanes_vector(c)] for t, c in zip(ticks, combos)]]]
+                    got = e1.run_probe(hp, text)
+                    ctx.case(text, sample=lambda: dict(header=header, ticks=len(ticks)))
+                    ctx.evaluations += 1
+                    ctx.hist["header_sections"] += 1
+                    if got != expected:
+                        e1.report(ctx, "note-events", text, HEADER_PROBE, [expected], got if len(str(got)) < 600 else str(got)[:600], "section [%s], %d ticks walking through all combinations and flags (line order %s, S/E lines %s): note events differ from the lines written" % (header, len(ticks), order, inter))
         return
     if kind == "long":
         _, gap, inter = shard
